@@ -833,6 +833,11 @@ func (x *Exec) siteAsserts(st *State, fr *Frame, kind, arg string, bind map[stri
 			}
 			env := x.frameEnv(st, fr)
 			for k, v := range bind {
+				// a callee parameter hides the caller's local of the same name: that one stays reachable
+				// as caller_<name>
+				if old, ok := env.vars[k]; ok {
+					env.vars["caller_"+k] = old
+				}
 				env.vars[k] = v
 			}
 			props := x.contract.Props
